@@ -765,14 +765,14 @@ func (cat *Catalog) ReadCatalogFromReader(reader io.Reader) error {
 
 			return err
 		}
-		content := make([]string, incount)
+		content := make([]string, 0, preAllocation(incount))
 		for subIndex := uint64(0); subIndex < incount; subIndex++ {
 			str, err := ReadStringFromReader(reader)
 			if err != nil {
 
 				return err
 			}
-			content[subIndex] = str
+			content = append(content, str)
 		}
 		cat.MemoryExpressionVariableMap[key] = content
 	}
@@ -796,14 +796,14 @@ func (cat *Catalog) ReadCatalogFromReader(reader io.Reader) error {
 
 			return err
 		}
-		content := make([]string, incount)
+		content := make([]string, 0, preAllocation(incount))
 		for subIndex := uint64(0); subIndex < incount; subIndex++ {
 			str, err := ReadStringFromReader(reader)
 			if err != nil {
 
 				return err
 			}
-			content[subIndex] = str
+			content = append(content, str)
 		}
 		cat.MemoryExpressionAtomVariableMap[key] = content
 	}
@@ -1197,14 +1197,14 @@ func (meta *ArgumentListMeta) ReadMetaFrom(reader io.Reader) error {
 		return err
 	}
 
-	meta.ArgumentASTIDs = make([]string, integer)
+	meta.ArgumentASTIDs = make([]string, 0, preAllocation(integer))
 	for index := uint64(0); index < integer; index++ {
 		s, err := ReadStringFromReader(reader)
 		if err != nil {
 
 			return err
 		}
-		meta.ArgumentASTIDs[index] = s
+		meta.ArgumentASTIDs = append(meta.ArgumentASTIDs, s)
 	}
 
 	return nil
@@ -1549,15 +1549,10 @@ func (meta *ConstantMeta) ReadMetaFrom(reader io.Reader) error {
 
 		return err
 	}
-	byteArr := make([]byte, length)
-	readCount, err := reader.Read(byteArr)
+	byteArr, err := readBytesFromReader(reader, length)
 	if err != nil {
 
 		return err
-	}
-	if uint64(readCount) != length {
-
-		return io.ErrShortBuffer
 	}
 	meta.ValueBytes = byteArr
 
@@ -2261,14 +2256,14 @@ func (meta *ThenExpressionListMeta) ReadMetaFrom(reader io.Reader) error {
 		return err
 	}
 
-	meta.ThenExpressionIDs = make([]string, count)
+	meta.ThenExpressionIDs = make([]string, 0, preAllocation(count))
 	for index := uint64(0); index < count; index++ {
 		s, err := ReadStringFromReader(reader)
 		if err != nil {
 
 			return err
 		}
-		meta.ThenExpressionIDs[index] = s
+		meta.ThenExpressionIDs = append(meta.ThenExpressionIDs, s)
 	}
 
 	return nil
@@ -2567,9 +2562,8 @@ func ReadStringFromReader(reader io.Reader) (string, error) {
 		return "", err
 	}
 	strLen := binary.LittleEndian.Uint64(length)
-	strByte := make([]byte, int(strLen))
-	counter, err = io.ReadFull(reader, strByte)
-	TotalRead += uint64(counter)
+	strByte, err := readBytesFromReader(reader, strLen)
+	TotalRead += uint64(len(strByte))
 	if err != nil {
 
 		return "", err
@@ -2577,6 +2571,39 @@ func ReadStringFromReader(reader io.Reader) (string, error) {
 	ReadCount++
 
 	return string(strByte), nil
+}
+
+// maxPreAllocatedEntries bounds what is allocated up-front for a count that was read from the stream.
+const maxPreAllocatedEntries = 1024
+
+// preAllocation returns the capacity to allocate up-front for count entries that are yet to be read.
+func preAllocation(count uint64) int {
+	if count > maxPreAllocatedEntries {
+
+		return maxPreAllocatedEntries
+	}
+
+	return int(count)
+}
+
+// readBytesFromReader reads exactly length bytes. The buffer grows with the data that actually arrives,
+// so a corrupt or hostile length prefix can not make the reader allocate more than the stream delivers.
+func readBytesFromReader(reader io.Reader, length uint64) ([]byte, error) {
+	if length > math.MaxInt32 {
+
+		return nil, fmt.Errorf("declared length %d is too large", length)
+	}
+	var buffer bytes.Buffer
+	_, err := io.CopyN(&buffer, reader, int64(length))
+	if err != nil {
+		if err == io.EOF {
+			err = io.ErrUnexpectedEOF
+		}
+
+		return buffer.Bytes(), err
+	}
+
+	return buffer.Bytes(), nil
 }
 
 // WriteIntToWriter write a 64 bit integer into writer.
